@@ -166,5 +166,18 @@ PROPS["C09"] = {
     "replay_help": "case.steps: API steps (flush carries the steps run at its scheduling points); case.model_ops: the model operations with what was observed (Some (Some id) / Some None = not found / None = not observed). correspondence_code n>0 = the n-th model operation's result differs from the implementation (800 = the history is not on the expected side of the flush discipline); oracle_code 101 = the id of a name changed while the node ran, 102 = two names share an id, 103 = a recovered name came back with another id, 104 = a name known to this run disappeared, 110 = concurrent callers disagree",
 }
 
+PROPS["C10"] = {
+    "harness": "c10",
+    "props_files": ["C10/Props.v"],
+    "n": {"quick": 120, "thorough": 1500},
+    "timeout": {"quick": 1200, "thorough": 3400},
+    "level_text": "Theorem (Coq, no axioms): the tag-value dictionary, the inverted postings and the forward index are built from ANY list of series with distinct ids; for EVERY condition of the grammar (equals, in, like, regex as atomic filters; negation of an atomic filter; and; or; parentheses) the series selected through dictionary -> value ids -> postings (negation = series having the key minus matches) are exactly the written series whose own tags satisfy the condition, and group-by through forward index and dictionary returns each series' own value of every grouping key. Each structure is a list of layers (mutable, immutable, files); any placement of PrepareFlush / flush / compaction between the writes leaves every answer unchanged (layers_irrelevant). Tied to the code by writing series through the real metadata and index databases with such placements, parsing conditions from SQL text with the real parser and running the real operators (tag values lookup, series filtering, grouping context build, BuildGroup).",
+    "level_note": "Regex filters enter the model as the set of pool values Go's regexp matches (same call as the index makes). Like patterns follow index/kv_store.go FindValuesByLike. Trie buckets, table files and bitmaps are the real ones (C20, C15 cover their models). Queries naming a tag key unknown to the schema are rejected by the lookup operator and are not generated.",
+    "rule": "per case 3-14 series of one metric over 3 tag keys (each present with probability 65%) and 14 values (shared prefixes, multi-byte, a comma, a leading tilde), a second metric sharing keys and values, 2-6 queries with conditions of depth <= 3 over 8 atomic filter kinds and group by 0-2 keys, placed between writes together with PrepareFlush / flush / compaction of the dictionary, inverted and forward families; one case per quick run (6 per thorough run) inserts ~65536 filler series so that series ids straddle the bitmap container boundary; directed cases: two filters with equal rewritten text, like '*', negations over every layer; non-trivial = a query with >= 2 atomic filters of which one negated or non-equality, a series lacking a key, and a selected set that is neither empty nor everything; distinct = different JSON",
+    "trusted": ["partial: a query running concurrently with a flush (snapshot taken before, memory read after the flush completes) is not explored; placements are between operations"],
+    "assumptions": ["series ids distinct (NoDup) and one value per tag key in a series (keys_distinct) - both hold for what GenSeriesID is given"],
+    "replay_help": "case.series: written series (id, tags by key index), case.queries: SQL text, group-by keys, selected ids and per-series group values as returned, case.hops: model history. correspondence_code 1 = selected set differs from the model's index evaluation, 2 = group values differ; oracle_code 101 = selected set differs from evaluating the condition on every series' tags, 102 = group values differ from the series' own values, 900 = the query failed or panicked",
+}
+
 for _pid in PROPS:
     NOT_APPLICABLE.pop(_pid, None)
